@@ -95,6 +95,7 @@ func (w *World) sampleFlows(r *core.Run, segs *Segments, maxPairs, maxPaths int)
 func setup(r *core.Run, k Knobs, segAge time.Duration) (*World, *Segments) {
 	w := GenWorld(r, k)
 	w.Build()
+	w.OnHop = func(rec *HopRec) { w.judgeRec(r, rec) }
 	r.Logf("world: %s", w.Describe())
 	segs, err := w.GenSegments(r, time.Now().Add(-segAge), 6)
 	if err != nil {
@@ -103,11 +104,14 @@ func setup(r *core.Run, k Knobs, segAge time.Duration) (*World, *Segments) {
 	return w, segs
 }
 
-// judgeHops applies the per-traversal invariants of the property under check.
-func (w *World) judgeHops(r *core.Run, j *Journey) {
+// judgeHops is kept for call sites; judging happens per traversal in OnHop (see judgeRec).
+func (w *World) judgeHops(r *core.Run, j *Journey) {}
+
+// judgeRec applies the per-traversal invariants of the property under check, at the simulated
+// instant of the traversal.
+func (w *World) judgeRec(r *core.Run, rec *HopRec) {
 	now := time.Now()
-	for i := range j.Hops {
-		rec := &j.Hops[i]
+	{
 		if rec.Panic != "" && r.Prop != "C08" {
 			panic(core.InfraError{Msg: fmt.Sprintf("router panic outside the C08 campaign (a C08 violation): %s %s: %s input %x",
 				rec.Router.AS.IA, rec.Router.Name, rec.Panic, rec.InRaw)})
@@ -121,9 +125,6 @@ func (w *World) judgeHops(r *core.Run, j *Journey) {
 			w.checkC08Output(r, rec)
 		case "C22":
 			w.checkC22(r, rec)
-		}
-		if r.Failed() {
-			return
 		}
 	}
 }
